@@ -22,7 +22,7 @@ pub static DEF: PropDef = PropDef {
     real: &["filter parser, DefaultCompiler / every compiled closure, Filter::execute, FilterValue::execute", "regex-automata meta::Regex with its cache pool", "sliceslice / memchr searchers, LazyLock SIMD latch", "Scheme / AST Arc sharing", "real OS threads"],
     stub: &["thread scheduler (cooperative baton; pre-emption at node entries and callbacks only)", "SIMD anchor draw (supplied by the tape)", "user functions and list matcher (harness plug-ins)"],
     assumptions: &["code between two scheduling points is atomic in this engine; instruction-level interleavings and data races are covered only by the Miri tier (scalar path)", "harness callbacks are pure functions of their arguments"],
-    required_probes: &["c18.exec", "c18.recompile", "c18.value_exec", "c18.shared_ctx", "c18.regex_on_2_threads", "c18.t64", "c18.injected_panic_isolated", "c18.inside_overlap", "c18.parse"],
+    required_probes: &["c18.exec", "c18.recompile", "c18.value_exec", "c18.shared_ctx", "c18.regex_on_2_threads", "c18.t64", "c18.injected_panic_isolated", "c18.inside_overlap", "c18.parse", "c18.panic_burst"],
     extra: Some(extra),
 };
 
@@ -67,6 +67,8 @@ struct Shared {
     vbaseline: Vec<Vec<Outcome>>,
     sim_compiler: bool,
     inside: Mutex<Vec<bool>>,
+    boom_filter: Option<Filter>,
+    boom_baseline: Vec<Outcome>,
 }
 
 #[derive(Clone, Copy, Debug)]
@@ -78,6 +80,9 @@ enum Step {
     Serialise(usize),
     /// parse the filter text again inside the task (harness functions' parse-time callbacks are scheduling points)
     Parse(usize),
+    /// n executions in a row that each unwind out of a user callback and are caught by the caller, followed by a
+    /// normal execution: the thread must be as good as new
+    PanicBurst(usize, usize),
 }
 
 fn compile(ast: FilterAst, sim: bool) -> Filter {
@@ -157,6 +162,21 @@ fn task_body(task: usize, sh: Arc<Shared>, steps: Vec<Step>) {
                 kernel::point("c18.clone");
                 drop(a);
                 drop(s);
+            }
+            Step::PanicBurst(c, n) => {
+                let Some(bf) = &sh.boom_filter else { continue };
+                for _ in 0..n {
+                    seams::arm_panic("fn.boom", 1);
+                    let r = catch_unwind(AssertUnwindSafe(|| bf.execute(&sh.ctxs[c])));
+                    seams::disarm_all();
+                    if r.is_ok() {
+                        // the armed callback was not reached (field absent): nothing to burst with
+                        break;
+                    }
+                }
+                kernel::count("c18.panic_burst");
+                let got = exec_filter(bf, &sh.ctxs[c]);
+                check("after-panic-burst", "boom filter", got, &sh.boom_baseline[c], task);
             }
             Step::Parse(f) => {
                 let ast = sh.asts[f].clone();
@@ -312,13 +332,20 @@ fn run(ctx: &RunCtx) -> Result<(), Violation> {
         for _ in 0..k {
             let f = choose(filters.len(), "step.f");
             let c = if chance(1, 2, "step.own_ctx") { ti % ctxs.len() } else { choose(ctxs.len(), "step.c") };
-            let s = match choose_w(&[10, if vfilters.is_empty() { 0 } else { 3 }, 3, 1, 1, 2], "step.kind") {
+            let s = match choose_w(&[10, if vfilters.is_empty() { 0 } else { 3 }, 3, 1, 1, 2, 1], "step.kind") {
                 0 => Step::Exec(f, c),
                 1 => Step::ExecValue(choose(vfilters.len(), "step.v"), c),
                 2 => Step::Recompile(f, c),
                 3 => Step::CloneDrop(f),
                 4 => Step::Serialise(f),
-                _ => Step::Parse(f),
+                5 => Step::Parse(f),
+                _ => {
+                    if chance(1, 4, "step.burst") {
+                        Step::PanicBurst(c, [1usize, 33, 40][choose(3, "step.burst_n")])
+                    } else {
+                        Step::Exec(f, c)
+                    }
+                }
             };
             if matches!(s, Step::Exec(..) | Step::Recompile(..)) && texts[f].contains("matches") && !regex_tasks[f].contains(&ti) {
                 regex_tasks[f].push(ti);
@@ -330,11 +357,21 @@ fn run(ctx: &RunCtx) -> Result<(), Violation> {
     if regex_tasks.iter().any(|x| x.len() >= 2) {
         kernel::count("c18.regex_on_2_threads");
     }
+    let boom_filter = spec.functions.contains(&"boom").then(|| {
+        let f = spec.fields.iter().find(|(_, t, _)| *t == crate::model::MType::Bytes).map(|f| f.0.clone());
+        f.and_then(|f| scheme.parse(&format!("boom({f}) == \"zz\" or boom({f}) != \"zz\"")).ok()).map(|a| compile(a, sim_compiler))
+    }).flatten();
+    let boom_baseline: Vec<Outcome> = match &boom_filter {
+        Some(bf) => ctxs.iter().map(|c| exec_filter(bf, c)).collect(),
+        None => Vec::new(),
+    };
     // optional injected callback panic in one execution
     if spec.functions.contains(&"boom") && texts.iter().any(|t| t.contains("boom(")) && chance(1, 3, "inject") {
         seams::arm_panic("fn.boom", 1 + choose(4, "inject.nth") as u32);
     }
     let sh = Arc::new(Shared {
+        boom_filter,
+        boom_baseline,
         texts: texts.clone(),
         asts,
         filters,
